@@ -138,7 +138,24 @@ func (en *Engine) VerifyFunction(fn *ssa.Function, fc *FuncContract, pc *PkgCont
 		}
 		res.Obligations = en.obls[start:]
 	}()
+	depth := 0
+	var hookState *State
+	freshHook = func(t types.Type, prefix string, facts *[]*Term) (v Value) {
+		if depth > 2 || hookState == nil {
+			return nil
+		}
+		depth++
+		defer func() {
+			depth--
+			if r := recover(); r != nil {
+				v = nil
+			}
+		}()
+		return en.freshOfType(hookState, t, prefix, facts)
+	}
+	defer func() { freshHook = nil }()
 	st := &State{mem: map[*Region]Cell{}, bounds: NewBounds(), sideSeen: map[int]bool{}, typed: map[int]bool{}, cutDone: map[int]bool{}, freshRegions: map[*Region]bool{}, ifaceRefined: map[int]IfaceV{}, ifaceDenied: map[int]bool{}}
+	hookState = st
 	fr := &Frame{fn: fn, env: map[ssa.Value]Value{}, visits: map[int]int{}, loopSt: map[int]*loopState{}}
 	if fn.Blocks == nil {
 		res.Errors = append(res.Errors, "function has no Go body")
